@@ -661,7 +661,13 @@ func checkC11(c *Check) {
 					if !sameElem {
 						return
 					}
-					if skip, _ := iterationSkips(m, ia, st); skip {
+					// every iteration stores: from the element the loop hands out (not from the address computed next
+					// to the store, which a condition may enclose together with it)
+					var from ssa.Instruction = ia
+					if si, isI := src.(ssa.Instruction); isI {
+						from = si
+					}
+					if skip, _ := iterationSkips(m, from, st); skip {
 						return
 					}
 					// … and not only after entries have been registered
